@@ -63,7 +63,7 @@ func newWorker() *worker {
 	for _, ch := range []string{"a/", "b/", "c/", "y/", "x/"} {
 		k.w.Request("presence", map[string]interface{}{"key": k.rw, "channel": ch, "status": false, "changes": true})
 	}
-	k.env.Svc.VerifPresence().VerifBarrier()
+	k.env.PresenceBarrier()
 	k.w.Drain()
 	k.baseline = k.dump("")
 	return k
@@ -131,7 +131,9 @@ func (k *worker) runBurst(cs Case) (kind, what string) {
 		want["unsubscribe|"+ch]++
 	}
 	pres := k.env.Svc.VerifPresence()
-	pres.VerifBarrier()
+	if !k.env.PresenceBarrier() {
+		return "presence-missing:queue-not-served", "presence notifications were not published within 120 s (the queue is not being served)"
+	}
 	if n := len(k.w.Drain()); n != cs.Burst {
 		return "presence-session-stream", fmt.Sprintf("watcher saw %d notifications for %d subscriptions", n, cs.Burst)
 	}
@@ -163,7 +165,9 @@ func (k *worker) runBurst(cs Case) (kind, what string) {
 	if !t.WaitClosed() {
 		return "connection-not-closed", "the broker did not close the socket after the connection ended"
 	}
-	pres.VerifBarrier()
+	if !k.env.PresenceBarrier() {
+		return "presence-missing:queue-not-served", "presence notifications were not published within 120 s (the queue is not being served)"
+	}
 	if d := k.dump(tid); d != k.baseline {
 		return "trie-entry", fmt.Sprintf("subscription index after the end: %.300s ; expected %s", d, k.baseline)
 	}
@@ -270,7 +274,9 @@ func (k *worker) runCase(cs Case) (kind, what string) {
 	if !t.WaitClosed() {
 		return "connection-not-closed", "the broker did not close the socket after the connection ended"
 	}
-	k.env.Svc.VerifPresence().VerifBarrier()
+	if !k.env.PresenceBarrier() {
+		return "presence-missing:queue-not-served", "presence notifications were not published within 120 s (the queue is not being served)"
+	}
 	var ends []string
 	for f := range held {
 		ends = append(ends, "unsubscribe|"+f)
